@@ -17,7 +17,24 @@ ASSUMPTIONS = ['sizes observed through len(f.__cache__()) / f.info().size only',
 QUICK_N, THOROUGH_N = 400, 2500
 
 
+def _with_scenario(pair):
+    case, pick = pair
+    if pick == 1 and isinstance(case['maxsize'], int) and case['maxsize'] >= 2:
+        # fill past the bound, reset with clear(keepstats=True) (or clear()), fill again with every pool entry: bookkeeping that survives a
+        # reset must not let the cache grow past its bound afterwards
+        n = len(case['pool'])
+        case = dict(case, ops=[['sweep', 0, n], ['clearkeep'], ['sweep', 1, n], ['sweep', 0, n]] + list(case['ops']))
+    elif pick == 2 and isinstance(case['maxsize'], int) and case['maxsize'] >= 2:
+        n = len(case['pool'])
+        case = dict(case, ops=[['sweep', 0, n], ['clear'], ['sweep', 2, n]] + list(case['ops']))
+    return case
+
+
 def strata(tier):
+    return [(n, st.tuples(s, st.sampled_from([0, 0, 0, 1, 1, 2])).map(_with_scenario)) for n, s in _strata(tier)]
+
+
+def _strata(tier):
     return G.strata_grid(
         maxsizes=(2, 1, 3, 5, 6, 0, None), ms_pos=(False, True), max_ops=35 if tier == 'quick' else 60,
         weights={'call': 14, 'load': 3, 'dump': 2, 'loadk': 1, 'dumpk': 1, 'clear': 1, 'clearkeep': 2, 'awrite': 2, 'burst': 2, 'sweep': 3, 'arch_off': 1, 'arch_on': 1},
